@@ -17,7 +17,24 @@ def run_case(cs, layout=None):
     op = cs['op']
     asc = cs['ascending']
     try:
-        if op.startswith('s_'):
+        if op in ('s_sort_index_key', 'f_sort_index_key'):
+            kc = [[P.dec(v) for v in col] for col in cs['keycols']]
+            form = cs['keyform']
+            if form == 'array1':
+                key = lambda ix: np.array(kc[0])
+            elif form == 'array2':
+                key = lambda ix: np.array(list(zip(*kc)))
+            else:
+                key = lambda ix: sf.IndexHierarchy.from_labels(list(zip(*kc)))
+            if op == 's_sort_index_key':
+                obj = P.build_series(cs['s'])
+                src = cs['s']['index']
+            else:
+                obj = P.build_frame(cs['f'], layout)
+                src = cs['f']['index']
+            r = obj.sort_index(ascending=asc, key=key)
+            dst = P.labels_of(r.index)
+        elif op.startswith('s_'):
             s = P.build_series(cs['s'])
             r = s.sort_index(ascending=asc) if op == 's_sort_index' else s.sort_values(ascending=asc)
             src, dst = cs['s']['index'], P.labels_of(r.index)
@@ -73,6 +90,35 @@ def gen_case(rng, big=True):
         col = _keyvals(rng, n, 'i', 5)
         s = {'index': labels, 'vals': col['vals'], 'dt': col['dt'], 'name': ['none']}
         return {'op': 's_sort_index', 's': s, 'ascending': asc}, None
+    if r < 0.42:
+        # sort_index with a key function returning a 1-D array, a 2-D array or an IndexHierarchy of depth 2..3
+        form = rng.choice(['array1', 'array2', 'hier', 'hier'])
+        depth = 1 if form == 'array1' else rng.choice([2, 3])
+        n = min(n, 60)
+        if form == 'hier':
+            # unique tuples, equal outer labels contiguous (tree order), inner depths unsorted with ties on leading depths
+            keys = []
+            for o in rng.sample(['A', 'B', 'C', 'D'], rng.randint(1, 4)):
+                for m in rng.sample(range(0, 4), rng.randint(1, 3)) if depth == 3 else [None]:
+                    for x in rng.sample(range(0, 30), rng.randint(1, 4)):
+                        keys.append((['s', o], ['i', m], ['i', x]) if depth == 3 else (['s', o], ['i', x]))
+            if depth == 3:
+                # the middle depth must be contiguous under its outer label as well
+                pass
+            keys = keys[:max(n, 1)]
+            n = len(keys)
+            keycols = [[k[d] for k in keys] for d in range(depth)]
+        else:
+            keycols = [[['i', rng.randrange(3)] for _ in range(n)] for _ in range(depth)]
+        flat = rng.random() < 0.5
+        labels = [['s', 'L%03d' % i] for i in range(n)] if flat else [['i', x] for x in rng.sample(range(3 * n + 1), n)]
+        if rng.random() < 0.5:
+            col = _keyvals(rng, n, 'i', 5)
+            s = {'index': labels, 'vals': col['vals'], 'dt': col['dt'], 'name': ['none']}
+            return {'op': 's_sort_index_key', 's': s, 'ascending': asc, 'keyform': form, 'keycols': keycols}, None
+        cols = [_keyvals(rng, n, rng.choice('if'), 3) for _ in range(2)]
+        f = {'index': labels, 'columns': [['s', 'a'], ['s', 'b']], 'cols': cols, 'name': ['none']}
+        return {'op': 'f_sort_index_key', 'f': f, 'ascending': asc, 'keyform': form, 'keycols': keycols}, C.rand_layout(rng, f)
     nk = rng.choice([1, 1, 2, 3])
     ncols = nk + rng.randint(0, 2)
     kinds = [rng.choice('iifUb') for _ in range(ncols)]
